@@ -24,21 +24,28 @@ def functions(tier):
     return u
 
 
-DEFAULT_STYLES = ('str', 'none', 'tuple')
+DEFAULT_STYLES = ('str', 'none', 'tuple', 'comma', 'eqcolon', 'pair', 'arrow')
+ANNOTATION_STYLES = ('plain', 'sep', 'braces')
 
 
 def default_text(style, name):
-    """Three kinds of default value: a distinguishable string, None, and an empty tuple (repr ends in a parenthesis)."""
-    return {'str': repr('d_' + name), 'none': 'None', 'tuple': '()'}[style]
+    """Kinds of default value: a distinguishable string, None, an empty tuple (repr ends in a parenthesis), and values
+    whose text contains what the string form of a signature uses as punctuation: ', '  '='  ':'  ' -> '."""
+    return {'str': repr('d_' + name), 'none': 'None', 'tuple': '()', 'comma': repr('d_%s, x' % name),
+            'eqcolon': repr('k=%s: w' % name), 'pair': '(1, %r)' % name, 'arrow': repr('%s -> b' % name)}[style]
+
+
+def annotation_text(style, name):
+    return {'plain': repr('A_' + name), 'sep': repr('A=%s: x, y' % name), 'braces': '{}'}[style]
 
 
 def native(shape, annotate, ret, style='str'):
     """Reference function: native def returning its arguments keyed by parameter name."""
     defaults = dict((p[0], default_text(style, p[0])) for p in shape if p[2])
-    ann = dict((p[0], repr('A_' + p[0])) for p in shape) if annotate else None
+    ann = dict((p[0], annotation_text(annotate if isinstance(annotate, str) else 'plain', p[0])) for p in shape) if annotate else None
     names = [p[0] for p in shape]
     body = 'return {%s}' % ', '.join('%r: %s' % (n, n) for n in names)
-    src = 'def ref(%s)%s:\n    %s\n' % (space.render(shape, defaults, ann), " -> 'R'" if ret else '', body)
+    src = 'def ref(%s)%s:\n    %s\n' % (space.render(shape, defaults, ann), (" -> 'R -> S, T'" if annotate == 'sep' else " -> 'R'") if ret else '', body)
     ns = {}
     exec(compile(src, '<vf:c20>', 'exec'), ns)
     return ns['ref']
@@ -58,14 +65,16 @@ def eval_shape(shape, st):
     has_po = any(p[1] == PO for p in shape)
     calls = callsem.calls_for(shape)
     styles = DEFAULT_STYLES if any(p[2] for p in shape) else ('str',)
-    for style, annotate, ret in [(st_, an_, re_) for st_ in styles for an_ in (False, True) for re_ in (False, True)]:
-        if style != 'str' and annotate:
+    for style, annotate, ret in [(st_, an_, re_) for st_ in styles for an_ in (False,) + ANNOTATION_STYLES for re_ in (False, True)]:
+        if style != 'str' and annotate not in (False, 'sep'):
+            continue
+        if style in ('none', 'tuple') and annotate:
             continue
         for _once in (0,):
             ref = native(shape, annotate, ret, style)
             sig0 = inspect.signature(ref)
             text = str(sig0)
-            ptext = text.rpartition(' -> ')[0] if ret else text
+            ptext = text[:-len(" -> 'R -> S, T'" if annotate == 'sep' else " -> 'R'")] if ret else text
             ptext = ptext[1:-1]
             base = {'signature': text}
             case = {'shape': space.to_json(shape), 'annotate': annotate, 'ret': ret, 'defaults': style}
@@ -81,7 +90,7 @@ def eval_shape(shape, st):
                     kw = dict(opts)
                     if future:
                         kw['future_features'] = ('annotations',)
-                    args = (ptext, "'R'") if ret else (ptext,)
+                    args = (ptext, text.rpartition(' -> ')[2] if annotate != 'sep' else "'R -> S, T'") if ret else (ptext,)
                     try:
                         sig1 = support.s(*args, **kw)
                         fn = support.f(*args, **kw)
